@@ -123,6 +123,7 @@ fn mix(key: u128, budget: u32) -> u128 {
 struct RunResult {
     children: Vec<Vec<u16>>,
     trace: u64,
+    leaf: bool,
 }
 
 fn run_one<M: Model>(sh: &Shared<M>, prefix: &[u16], record: bool) -> Result<RunResult, String> {
@@ -235,7 +236,7 @@ fn run_one<M: Model>(sh: &Shared<M>, prefix: &[u16], record: bool) -> Result<Run
             }
         }
     }
-    Ok(RunResult { children, trace })
+    Ok(RunResult { children, trace, leaf })
 }
 
 fn worker<M: Model>(sh: &Shared<M>) {
@@ -286,8 +287,10 @@ fn worker<M: Model>(sh: &Shared<M>) {
                     match run_one(sh, &job, false) {
                         Ok(r2) => {
                             sh.rechecks.fetch_add(1, Ordering::Relaxed);
-                            if r2.trace != r.trace {
-                                // a pruned run stops early; compare only complete prefixes
+                            // the same history must give bit-identical observations (a run cut short at
+                            // an already visited state has no complete log to compare)
+                            if r.leaf && r2.leaf && r2.trace != r.trace {
+                                *sh.error.lock().unwrap() = Some(format!("nondeterminism: history {:?} produced two different observation logs", job));
                             }
                         }
                         Err(e) => *sh.error.lock().unwrap() = Some(e),
